@@ -1,0 +1,55 @@
+//go:build verif
+
+package lime
+
+import "net"
+
+// VerifHook, when set, is invoked at the instrumented linearization points
+// of the package. It exists only in builds with the "verif" tag.
+var VerifHook func(point string, args ...interface{})
+
+func verifHook(point string, args ...interface{}) {
+	if h := VerifHook; h != nil {
+		h(point, args...)
+	}
+}
+
+// VerifNewTCPTransport builds the real TCP transport over a caller-supplied
+// connection, in the client or server role.
+func VerifNewTCPTransport(conn net.Conn, config *TCPConfig, server bool) Transport {
+	if config == nil {
+		config = &defaultTCPConfig
+	}
+	t := tcpTransport{TCPConfig: *config}
+	t.server = server
+	t.setConn(conn)
+	t.encryption = SessionEncryptionNone
+	return &t
+}
+
+// VerifPendingCommands returns the number of entries of the pending command table.
+func VerifPendingCommands(c interface{}) int {
+	var ch *channel
+	switch v := c.(type) {
+	case *ServerChannel:
+		ch = v.channel
+	case *ClientChannel:
+		ch = v.channel
+	default:
+		return -1
+	}
+	ch.processingCmdsMu.RLock()
+	defer ch.processingCmdsMu.RUnlock()
+	return len(ch.processingCmds)
+}
+
+// VerifTransport returns the transport of a channel.
+func VerifTransport(c interface{}) Transport {
+	switch v := c.(type) {
+	case *ServerChannel:
+		return v.transport
+	case *ClientChannel:
+		return v.transport
+	}
+	return nil
+}
